@@ -6,7 +6,7 @@
 (* predicates that need multiplication only (checked for every entry by     *)
 (* MC_Tables).                                                              *)
 (***************************************************************************)
-EXTENDS IEEE, TablesData
+EXTENDS Consts, TablesData
 
 \* ------------------------------------------------------------ exact powers
 SmallIntPow5(k)  == Pow5(k)           \* k in 0..27, all < 2^64
